@@ -106,12 +106,34 @@ fn accept<B: Fld, E: FieldElement<BaseField = B>, H: ElementHasher<BaseField = B
     let (pos, qkind) = positions(rng, domain, pr.fold);
     let use_drawn = rng.chance(1, 4);
     let mut prover = FriProver::<B, E, frih::Chan<E, H>, H>::new(opts.clone());
+    // the reused prover gets, in half of the cases, a polynomial over a domain of another size
+    let first = (n, domain, evals, pos);
+    let second = {
+        let mut alt = None;
+        if rng.chance(1, 2) {
+            for _ in 0..8 {
+                let log_n2 = rng.range(0, 10);
+                let d2 = (1usize << log_n2) * pr.blowup;
+                if log_n2 != pr.log_n && d2 >= 8 && d2 <= (1 << 13) && frih::schedule_well_formed(d2, &opts) {
+                    let n2 = 1usize << log_n2;
+                    let (p2, _) = poly::<B, E>(rng, n2);
+                    let (pos2, _) = positions(rng, d2, pr.fold);
+                    alt = Some((n2, d2, frih::evaluate::<B, E>(&p2, d2), pos2));
+                    break;
+                }
+            }
+        }
+        alt
+    };
+    let resized = second.is_some();
+    let rounds = [first.clone(), second.unwrap_or(first)];
     let desc = |what: &str, err: String| {
-        J::obj(vec![("config", J::s(tag)), ("blowup", J::i(pr.blowup)), ("folding", J::i(pr.fold)), ("remainder_max_degree", J::i(pr.rem)), ("poly_size", J::i(n)), ("domain", J::i(domain)), ("polynomial", J::s(pkind)), ("positions", J::s(qkind)), ("what", J::s(what)), ("error", J::s(err))])
+        J::obj(vec![("config", J::s(tag)), ("blowup", J::i(pr.blowup)), ("folding", J::i(pr.fold)), ("remainder_max_degree", J::i(pr.rem)), ("poly_size", J::i(n)), ("domain", J::i(domain)), ("second_round_domain", J::i(rounds[1].1)), ("polynomial", J::s(pkind)), ("positions", J::s(qkind)), ("what", J::s(what)), ("error", J::s(err))])
     };
     let sig = |what: &str| format!("{what}:n{}", if n <= 2 { n.to_string() } else { "ge4".to_string() });
     for round in 0..2 {
         // the second round reuses the prover instance
+        let (n, domain, evals, pos) = (rounds[round].0, rounds[round].1, &rounds[round].2, &rounds[round].3);
         let r = catch(|| {
             let q = if use_drawn { None } else { Some(pos.clone()) };
             frih::prove::<B, E, H>(&mut prover, evals.clone(), &opts, pos.len().max(1).min(domain - 1), q)
@@ -163,6 +185,9 @@ fn accept<B: Fld, E: FieldElement<BaseField = B>, H: ElementHasher<BaseField = B
     st.count(&format!("config.{tag}"));
     if n <= 2 {
         st.count("degree_bound_0_or_1");
+    }
+    if resized {
+        st.count("prover_reused_on_other_domain_size");
     }
     st.distinct.insert(wfv::fnv(format!("{tag}{pr:?}{pkind}{qkind}{i}").as_bytes()));
     st.sample(tag, || desc("sample", String::new()));
@@ -337,12 +362,12 @@ fn main() {
         position_folding(rng, st);
         st.distinct.insert(wfv::fnv(format!("fp{i}").as_bytes()));
     });
-    let mut require = vec![("degree_bound_0_or_1".to_string(), 20), ("fold_positions.cases".to_string(), 1000), ("nonpow2.accepted_or_checked".to_string(), 100), ("nonpow2.layers_1".to_string(), 10), ("nonpow2.layers_2".to_string(), 10)];
+    let mut require = vec![("degree_bound_0_or_1".to_string(), 20), ("fold_positions.cases".to_string(), 1000), ("nonpow2.accepted_or_checked".to_string(), 100), ("prover_reused_on_other_domain_size".to_string(), 100), ("nonpow2.layers_1".to_string(), 10), ("nonpow2.layers_2".to_string(), 10)];
     for k in ["poly.degree-0", "poly.degree-1", "poly.degree-bound-minus-1", "poly.degree-exactly-bound", "poly.random", "positions.one-position", "positions.255-or-max-positions-with-duplicates", "positions.colliding-after-folding", "positions.repeated-position", "folding.2", "folding.4", "folding.8", "folding.16", "accepted_or_checked.layers_0", "accepted_or_checked.layers_1", "accepted_or_checked.layers_3"] {
         require.push((k.to_string(), 10));
     }
     run.finish(Finish {
-        rule: "instances: blowup 2..128 x folding 2/4/8/16 x remainder max degree 0..255 x polynomial sizes 2^0..2^10 (degree bounds 0 and 1 forced into every 9th case) with domain 8..2^13 and a well-formed schedule; polynomials of degree 0, 1, bound-1, exactly bound, zero, random; position lists: single, up to 255 with duplicates, colliding after folding, repeated, random; prover instance reused for a second proof; degree bounds m-1 with m a multiple of folding^layers strictly between n/2 and n (not of the form 2^k-1); verification directly and after FriProof byte round trip; 8 field/extension/hasher configurations. Folding identity: apply_drp<2/4/8/16> on direct evaluations vs g(y)=sum_k alpha^k f_k(y) evaluated on the folded coset; fold_positions / map_positions_to_indexes / num_fri_layers vs closed forms. distinct = distinct generated instance".into(),
+        rule: "instances: blowup 2..128 x folding 2/4/8/16 x remainder max degree 0..255 x polynomial sizes 2^0..2^10 (degree bounds 0 and 1 forced into every 9th case) with domain 8..2^13 and a well-formed schedule; polynomials of degree 0, 1, bound-1, exactly bound, zero, random; position lists: single, up to 255 with duplicates, colliding after folding, repeated, random; prover instance reused for a second proof (in half of the cases for a polynomial over a domain of another size); degree bounds m-1 with m a multiple of folding^layers strictly between n/2 and n (not of the form 2^k-1); verification directly and after FriProof byte round trip; 8 field/extension/hasher configurations. Folding identity: apply_drp<2/4/8/16> on direct evaluations vs g(y)=sum_k alpha^k f_k(y) evaluated on the folded coset; fold_positions / map_positions_to_indexes / num_fri_layers vs closed forms. distinct = distinct generated instance".into(),
         assumptions: vec!["evaluations of the test polynomials are produced with the library FFT (C09); the folding identity uses direct evaluation instead".into(), "ill-formed schedules (a folded layer with fewer than 2 rows, or no remainder coefficient) are not generated".into()],
         exhaustive: false,
         require,
